@@ -112,6 +112,7 @@ static uint64_t battery(bool thorough, uint64_t seed, Out *o, long *count) {
   Rng r(seed); uint64_t fp = 1469598103934665603ull;
   int n = thorough ? 2500 : 400;
   Encoder reused_enc; EncoderBuffer reused_buf; Decoder reused_dec; DecoderBuffer reused_db;
+  struct Recent { std::vector<uint8_t> bytes; bool mesh; std::string dig; }; std::vector<Recent> recent;
   for (int i = 0; i < n; i++) {
     bool mesh = r.chance(60);
     std::unique_ptr<PointCloud> g = mesh ? std::unique_ptr<PointCloud>(gen_mesh(r).release()) : gen_pc(r);
@@ -161,6 +162,18 @@ static uint64_t battery(bool thorough, uint64_t seed, Out *o, long *count) {
       rem = reused_db.remaining_size();
       if (o && d2 != d1) o->fail("C06 reused Decoder/DecoderBuffer or trailing bytes changed the decoded geometry: " + tag);
       if (o && rem != junk) o->fail("C06 decoder did not consume exactly the stream (remaining " + S(rem) + ", junk " + S(junk) + "): " + tag);
+      // several streams back to back in ONE buffer behind an application header: every decode starts where the previous one stopped
+      // (the buffer's read position is not 0 when decoding starts), through both decode entry points
+      recent.push_back({bytes, mesh, d1}); if (recent.size() > 3) recent.erase(recent.begin());
+      if (recent.size() >= 2 && r.chance(35)) { int k = (int)r.range(1, 40); std::vector<uint8_t> cont(k); for (auto &x : cont) x = (uint8_t)r.next(); std::vector<size_t> ends;
+        for (auto &rc : recent) { cont.insert(cont.end(), rc.bytes.begin(), rc.bytes.end()); ends.push_back(cont.size()); }
+        DecoderBuffer cb; cb.Init((const char *)cont.data(), cont.size()); cb.Advance(k); bool via_geometry = r.chance(50);
+        for (size_t q = 0; q < recent.size(); q++) { Decoder dd; std::string dg;
+          if (via_geometry) { if (recent[q].mesh) { Mesh mm; if (dd.DecodeBufferToGeometry(&cb, &mm).ok()) dg = digest(mm, &mm); } else { PointCloud pp; if (dd.DecodeBufferToGeometry(&cb, &pp).ok()) dg = digest(pp, nullptr); } }
+          else { if (recent[q].mesh) { auto m2 = dd.DecodeMeshFromBuffer(&cb); if (m2.ok()) dg = digest(*m2.value(), m2.value().get()); } else { auto p2 = dd.DecodePointCloudFromBuffer(&cb); if (p2.ok()) dg = digest(*p2.value(), nullptr); } }
+          if (o && dg != recent[q].dig) { o->fail("C06 stream #" + S((int64_t)q) + " of a container (streams back to back behind a " + S(k) + "-byte header, " + (via_geometry ? "DecodeBufferToGeometry" : "Decode*FromBuffer") + ") decodes differently from the stream alone: " + tag); break; }
+          // (observed through remaining_size(): some decoders re-base the buffer on the unread tail, which makes decoded_size() relative)
+          if (o && (size_t)cb.remaining_size() != cont.size() - ends[q]) { o->fail("C06 after stream #" + S((int64_t)q) + " of a container " + S(cb.remaining_size()) + " bytes remain, expected " + S((int64_t)(cont.size() - ends[q])) + " (" + (via_geometry ? "DecodeBufferToGeometry" : "Decode*FromBuffer") + "): " + tag); break; } } }
     }
   }
   return fp;
